@@ -31,11 +31,13 @@ const c23Contract = `access(all) contract N {
     access(mapping Identity) var map: @{Int: Item}
     access(mapping Identity) var smap: @{String: Item}
     access(all) var opt: @Coll?
+    access(mapping Identity) var oitems: @[Item?]
     init(_ n: Int, _ t: Int) {
       self.items <- []
       self.map <- {}
       self.smap <- {}
       self.opt <- nil
+      self.oitems <- [<- create Item(500, t * 50), nil, <- create Item(501, 1)]
       var i = 0
       while i < n {
         self.items.append(<- create Item(i, t))
@@ -54,6 +56,9 @@ const c23Contract = `access(all) contract N {
     access(all) fun takeOpt(): @Coll? { let o <- self.opt <- nil; return <- o }
     access(all) fun putS(_ k: String, _ i: @Item) { let old <- self.smap.insert(key: k, <- i); destroy old }
     access(all) fun takeS(_ k: String): @Item? { return <- self.smap.remove(key: k) }
+    access(all) fun oiSet(_ i: @Item?) { let old <- self.oitems[0] <- i; destroy old }
+    // (any swap statement x <-> self.oitems[i] is accepted by the checker but fails at run time on both engines, see notes)
+    access(all) fun oiSwap() { let a <- self.oitems[0] <- nil; let b <- self.oitems[1] <- a; let c <- self.oitems[0] <- b; destroy c }
     access(all) fun swapFirst() { if self.items.length > 0 && self.map[0] != nil { let a <- self.items.remove(at: 0); let b <- self.map.insert(key: 0, <- a); self.items.insert(at: 0, <- b!) } }
   }
   access(all) struct Box {
@@ -62,6 +67,13 @@ const c23Contract = `access(all) contract N {
     access(mapping Identity) var d: {Int: [Int]}
     access(mapping Identity) var sd: {String: [Int]}
     access(all) var inner: [Box]
+    // optional element / value / field types; the non-nil ones are containers or ~1 KB strings
+    access(mapping Identity) var oa: [[Int]?]
+    access(mapping Identity) var os: [String?]
+    access(mapping Identity) var ob: [Pt?]
+    access(mapping Identity) var od: {Int: [Int]?}
+    access(all) var of: [Int]?
+    access(all) var ofs: String?
     init(_ n: Int, _ m: Int) {
       self.a = []
       self.b = []
@@ -73,7 +85,26 @@ const c23Contract = `access(all) contract N {
       while i < n { self.a.append(i); i = i + 1 }
       i = 0
       while i < m { self.b.append([i, i + 1, i + 2]); self.d[i] = [i, i]; i = i + 1 }
+      self.oa = []
+      self.od = {}
+      i = 0
+      while i < m {
+        if i % 3 == 2 { self.oa.append(nil); let none: [Int]? = nil; self.od[i] = none } else { self.oa.append([i, i + 1]); self.od[i] = [i] }
+        i = i + 1
+      }
+      self.oa.append(nil)
+      self.os = [N.longStr(0), nil, "s"]
+      self.ob = [Pt(1), nil]
+      self.of = [1]
+      self.ofs = nil
+      if m >= 40 { self.os.append(N.longStr(1)); self.of = N.ints(150); self.ofs = N.longStr(3) }
     }
+    access(all) fun setOf(_ v: [Int]?) { self.of = v }
+    access(all) fun setOfs(_ v: String?) { self.ofs = v }
+    access(all) fun oaSwap() { if self.oa.length > 1 { self.oa[0] <-> self.oa[self.oa.length - 1] } }
+    access(all) fun osSwap() { self.os[0] <-> self.os[1] }
+    access(all) fun odSwap() { self.od[0] <-> self.od[2] }
+    access(all) fun ofSwapOa() { if self.oa.length > 0 { self.of <-> self.oa[0] } }
     access(all) fun setA(_ v: [Int]) { self.a = v }
     access(all) fun setB(_ v: [[Int]]) { self.b = v }
     access(all) fun setD(_ k: Int, _ v: [Int]?) { self.d[k] = v }
@@ -83,6 +114,13 @@ const c23Contract = `access(all) contract N {
     access(all) fun clearD() { self.d = {} }
     access(all) fun b0AppendAll(_ xs: [Int]) { if self.b.length > 0 { self.b[0].appendAll(xs) } }
   }
+  access(all) struct Pt {
+    access(all) let x: Int
+    access(all) let ys: [Int]
+    init(_ x: Int) { self.x = x; self.ys = [x, x] }
+  }
+  // a ~1000-character string: too large to be stored inline in an array
+  access(all) view fun longStr(_ i: Int): String { var s = "s".concat(i.toString()); while s.length < 1000 { s = s.concat("0123456789") }; return s }
   // a ~400-character key: too large to be stored inline in a dictionary
   access(all) view fun longKey(_ i: Int): String { var s = "k".concat(i.toString()); while s.length < 400 { s = s.concat("0123456789") }; return s }
   access(all) fun mkColl(_ n: Int, _ t: Int): @Coll { return <- create Coll(n, t) }
@@ -162,6 +200,9 @@ var c23CollOps = map[string]string{
 	"setOptBig":       `r.setOpt(<- N.mkColl(40, 3))`,
 	"takeOptDestroy":  `let x <- r.takeOpt(); destroy x`,
 	"swapFirst":       `r.swapFirst()`,
+	"oiSetBig":        `r.oiSet(<- N.mkItem(57, 150))`,
+	"oiSetNil":        `r.oiSet(nil)`,
+	"oiSwap":          `r.oiSwap()`,
 	"directRemove":    `if r.items.length > 0 { let x <- r.items.remove(at: r.items.length / 2); destroy x }`,
 	"directMapRemove": `let x <- r.map.remove(key: 2); destroy x`,
 	"directInsert":    `let old <- r.map.insert(key: 2, <- N.mkItem(62, 3)); destroy old`,
@@ -196,6 +237,26 @@ var c23BoxOps = map[string]string{
 	"sdRemoveLong0": `r.sd.remove(key: N.longKey(0))`,
 	"sdRemoveShort": `r.sd.remove(key: "short")`,
 	"sdNilLong":    `r.sd[N.longKey(1)] = nil`,
+	// optional element types: index assignment, overwrite, nil, swap
+	"oaSet":        `if r.oa.length > 0 { r.oa[0] = [9, 9] }`,
+	"oaSetBig":     `if r.oa.length > 0 { r.oa[0] = N.ints(150) }`,
+	"oaSetNil":     `if r.oa.length > 0 { r.oa[0] = nil }`,
+	"oaSetLast":    `if r.oa.length > 0 { r.oa[r.oa.length - 1] = [5, 5] }`,
+	"oaSwap":       `r.oaSwap()`,
+	"oaRemove":     `if r.oa.length > 0 { r.oa.remove(at: 0) }`,
+	"osSet":        `r.os[0] = N.longStr(9)`,
+	"osSetNil":     `r.os[0] = nil`,
+	"osSwap":       `r.osSwap()`,
+	"obSet":        `r.ob[0] = N.Pt(2)`,
+	"odOverwrite":  `r.od[0] = [9]`,
+	"odOverwriteBig": `r.od[0] = N.ints(150)`,
+	"odInnerNil":   `let none: [Int]? = nil; r.od[0] = none`,
+	"odRemove":     `r.od[0] = nil`,
+	"odSwap":       `r.odSwap()`,
+	"ofBig":        `r.setOf(N.ints(150))`,
+	"ofNil":        `r.setOf(nil)`,
+	"ofsSet":       `r.setOfs(N.longStr(8))`,
+	"ofSwapOa":     `r.ofSwapOa()`,
 }
 
 // c23Source returns the transaction for an operation label, or "" if the
@@ -347,10 +408,17 @@ func c23AllOps(env *mc.Env) []string {
 					fmt.Sprintf("xfer:%d:%d", s, t), fmt.Sprintf("nest:%d:%d", s, t), fmt.Sprintf("unnest:%d:%d", s, t))
 			}
 		}
+		// the operations on optional-typed members run in slots 0 and 2 only (one per account, like "over")
 		for _, name := range sortedKeys(c23CollOps) {
+			if s == 1 && strings.HasPrefix(name, "oi") {
+				continue
+			}
 			ops = append(ops, fmt.Sprintf("coll:%s:%d", name, s))
 		}
 		for _, name := range sortedKeys(c23BoxOps) {
+			if s == 1 && len(name) > 2 && name[0] == 'o' && strings.Contains("asbdf", name[1:2]) {
+				continue
+			}
 			ops = append(ops, fmt.Sprintf("box:%s:%d", name, s))
 		}
 	}
